@@ -11,6 +11,21 @@ def block(name, text):
     s = pat.sub(lambda m: m.group(1) + text.rstrip('\n') + '\n' + m.group(2), s)
 st = subprocess.run(['python3', os.path.join(root, 'tools/dev/status_table.py')], capture_output=True, text=True).stdout
 block('STATUS', '\n'.join(l for l in st.split('\n') if l.startswith('|')))
+import json
+kf = json.load(open(os.path.join(root, 'known_findings.json')))
+if '<!-- FINDINGS:BEGIN -->' in s:
+    seen = {}
+    for f in kf['findings']:
+        if f.get('status') != 'open':
+            continue
+        base = re.sub(r'@asan$', '', f['id']).replace('C02/', '').replace('C10/', '')
+        seen.setdefault(base, (f['property'], f['what']))
+        if f['property'] not in seen[base][0]:
+            seen[base] = (seen[base][0] + '/' + f['property'], seen[base][1])
+    rows = ['| id | property | what fails |', '|---|---|---|']
+    for k in sorted(seen, key=lambda x: (seen[x][0], x)):
+        rows.append(f"| {k} | {seen[k][0]} | {seen[k][1][:260].replace('|', '/')} |")
+    block('FINDINGS', '\n'.join(rows) + f"\n\n{len(kf['fixed'])} `fixed:` lines (one per repaired defect) are in `known_findings.json`.")
 rm = os.path.join(root, 'seeded', 'RESULTS.md')
 if os.path.exists(rm) and '<!-- SEEDED:BEGIN -->' in s:
     block('SEEDED', open(rm).read())
